@@ -67,7 +67,7 @@ def sample_problem(rng):
             'pr': pr, 'rr': rr, 'ur': ur, 'gr': gr}
 
 
-def cases(rng, n, npts=5):
+def cases(rng, n, npts=5, fan_sides=False):
     probs = []
     for _ in range(n):
         P = sample_problem(rng)
@@ -97,6 +97,12 @@ def cases(rng, n, npts=5):
         scale = max(abs(P['ul']), abs(P['ur']), 1.0)
         goals.append('Goal Rabs (ig_call %s %s %s) <= %s.\nProof. rie_unfold. corr_solve. Qed.' % (
             st, pat, px, coq_num(Fraction(scale) * Fraction(1, 10**8))))
+        if fan_sides:
+            # hypothesis of the conservation theorem (C04): behind a fan the star pressure does not exceed the pressure ahead of it
+            if pat in ('RCS', 'RCR'):
+                goals.append('Goal %s <= %s.\nProof. lra. Qed.' % (px, qlit(P['pl'])))
+            if pat in ('SCR', 'RCR'):
+                goals.append('Goal %s <= %s.\nProof. lra. Qed.' % (px, qlit(P['pr'])))
         for i, xe in enumerate(o['Xregs']):
             goals.append('Goal Rabs (X %s %s %s %s %s %d%%nat - %s) <= %s.\nProof. rie_unfold. corr_solve. Qed.' % (
                 st, pat, px, qlit(P['xd0']), qlit(c['t']), i, qlit(xe), coq_num(Fraction(1, 10**8) * (1 + abs(Fraction(xe))))))
@@ -127,9 +133,13 @@ def write(name, goals, per_file=40):
     return files
 
 
-def unit_corr(rng, tier, prop):
+def unit_corr(rng, tier, prop, fan_sides=False):
     n = 6 if tier == 'quick' else 40
-    goals, dis, stats, kept = cases(rng, n)
+    goals, dis, stats, kept = cases(rng, n, fan_sides=fan_sides)
     files = write('%s_riemannIG' % prop, goals)
     sample = dict(kept[0], patterns_hit=stats) if kept else None
     return files, len(goals), dis, sample
+
+
+def unit_corr_c04(rng, tier, prop):
+    return unit_corr(rng, tier, prop, fan_sides=True)
